@@ -38,6 +38,7 @@ inductive Err
   | badState                      -- first token of an element neither start tag nor text
   | handler                       -- the handler returned an error
   | badJid                        -- the request's from address does not parse
+  | outputClosed                  -- a write was attempted after the local side closed its output
   deriving DecidableEq, Repr, Inhabited
 
 def Err.name : Err → String
@@ -45,6 +46,7 @@ def Err.name : Err → String
   | .streamError c => "se:" ++ c | .badFormat => "se:bad-format"
   | .procInst => "procinst" | .comment => "comment" | .directive => "directive"
   | .decoder => "decoder" | .badState => "bad-state" | .handler => "handler" | .badJid => "bad-jid"
+  | .outputClosed => "output-closed"
 
 /-- condition of the stream error `sendError` writes before closing -/
 def Err.cond : Err → String
@@ -229,11 +231,17 @@ inductive Ret | ok | fail | eof | readErr
   | stanzaErr
   /-- the handler returns the stream error `stream.PolicyViolation` -/
   | streamErr
+  /-- errors that *wrap* a sentinel (`fmt.Errorf("…: %w", x)`) or join it with another error:
+  they are not identical to the sentinel, `errors.Is` / `errors.As` still find it -/
+  | wrapEof | wrapUeof | wrapStanza | wrapStream | joinEof
   deriving DecidableEq, Repr, Inhabited
 
 structure Prog where
   ops : List Op
   ret : Ret
+  /-- the handler first closes the session's output (`Session.Close`), before reading or
+  writing anything: a local close between two elements -/
+  close : Bool := false
   deriving Repr, Inhabited
 
 def Prog.nop : Prog := { ops := [], ret := .ok }
@@ -362,6 +370,14 @@ def handleElem (cfg : Cfg) (n : Name) (as : List Attr) (rs1 : RS) (prog : Prog) 
   | .eof => .stop (some inv) ws1.out (.error .handler)
   | .stanzaErr => .stop (some inv) ws1.out (.error .handler)
   | .streamErr => .stop (some inv) ws1.out (.error (.streamError "policy-violation"))
+  -- only an error IDENTICAL to io.EOF is special (and is turned into an error); anything that
+  -- merely wraps io.EOF is an ordinary handler error; `sendError` finds a wrapped stream error
+  -- with errors.As and returns the handler's value
+  | .wrapEof => .stop (some inv) ws1.out (.error .handler)
+  | .wrapUeof => .stop (some inv) ws1.out (.error .handler)
+  | .wrapStanza => .stop (some inv) ws1.out (.error .handler)
+  | .joinEof => .stop (some inv) ws1.out (.error .handler)
+  | .wrapStream => .stop (some inv) ws1.out (.error (.streamError "policy-violation"))
   | .readErr =>
     (match es1.rs.sticky with
      | some (.err e) => .stop (some inv) ws1.out (.error e)
@@ -556,6 +572,84 @@ def serveFP (cfg : Cfg) : Nat → List Pend → RS → List Prog → OutP
 
 def serveP (cfg : Cfg) (pend : List Pend) (inp : List Tok) (progs : List Prog) : OutP :=
   serveFP cfg (inp.length + 1) pend (RS.init inp) progs
+
+/-! ### the local side has closed its output (`OutputStreamClosed`)
+
+After `Session.Close` every write fails (`ErrOutputStreamClosed`); the reply detector still sees
+the tokens the handler tries to write.  `sendError` returns the error it was given without
+writing anything. -/
+
+def Step.dropWritten : Step → Step
+  | .next i _ rs => .next i [] rs
+  | .stop i _ r => .stop i [] r
+
+/-- `handleElem` when the output is closed at entry (`closed`) or the handler closes it first -/
+def handleElemC (cfg : Cfg) (closed : Bool) (n : Name) (as : List Attr) (rs1 : RS) (prog : Prog) : Step :=
+  if !(closed || prog.close) then handleElem cfg n as rs1 prog else
+  match prog.ret with
+  | .ok =>
+    let as' := blankFrom cfg n as
+    let id := getId as'
+    let (view, es1, ws1) := runOps id prog.ops { rs := rs1, cnt := 0, fin := false } WS.init []
+    let inv : Inv := { start := .start n as', view := view }
+    let needs := isIq n && isRequestTyp (getTyp as') && !ws1.wrote
+    if needs && (replyTo cfg as').isNone then .stop (some inv) [] (.error .badJid)
+    else if needs || !(writesOf prog.ops).isEmpty then .stop (some inv) [] (.error .outputClosed)
+    else
+      match discard es1 with
+      | (none, es2) => .next (some inv) [] es2.rs
+      | (some e, _) => .stop (some inv) [] (.error e)
+  | _ => (handleElem cfg n as rs1 prog).dropWritten
+
+def handleInputStreamC (cfg : Cfg) (closed : Bool) (rs : RS) (prog : Prog) : Step :=
+  match ({ rs with dOut := 0, sticky := none } : RS).next with
+  | (.tok (.start n as), rs1) => handleElemC cfg closed n as rs1 prog
+  | _ => handleInputStream cfg rs prog
+
+def serveFC (cfg : Cfg) : Nat → Bool → RS → List Prog → Out
+  | 0, _, _, _ => { invs := [], written := [], result := .error .decoder }
+  | fuel + 1, closed, rs, progs =>
+    match handleInputStreamC cfg closed rs (progs.headD Prog.nop) with
+    | .stop inv w res => { invs := inv.toList, written := w, result := res }
+    | .next inv w rs' =>
+      let o := serveFC cfg fuel (closed || (inv.isSome && (progs.headD Prog.nop).close)) rs'
+        (if inv.isSome then progs.tail else progs)
+      { invs := inv.toList ++ o.invs, written := w ++ o.written, result := o.result }
+
+/-- `Serve` on a session whose output is already closed (`closed`) or not -/
+def serveC (cfg : Cfg) (closed : Bool) (inp : List Tok) (progs : List Prog) : Out :=
+  serveFC cfg (inp.length + 1) closed (RS.init inp) progs
+
+/-! ### tokens of the regenerated verdict table (`Generated/C08.lean`) -/
+
+def nsStreams : String := "urn:ietf:params:xml:ns:xmpp-streams"
+
+/-- the token (and what follows it) a kind name of the fact table stands for -/
+def factTok : String → Option (Tok × List Tok)
+  | "ws" => some (.chars " \n", [])
+  | "text" => some (.chars "x", [])
+  | "comment" => some (.comment "c", [])
+  | "pi-xml" => some (.procInst "xml" "version=\"1.0\"", [])
+  | "pi-XML" => some (.procInst "XML" "x", [])
+  | "pi-stylesheet" => some (.procInst "xml-stylesheet" "href=\"a\"", [])
+  | "pi-x" => some (.procInst "x" "y", [])
+  | "directive" => some (.directive "DOCTYPE x", [])
+  | "stream-error" => some (.start ⟨nsStream, "error"⟩ [],
+      [.start ⟨nsStreams, "host-gone"⟩ [], .stop ⟨nsStreams, "host-gone"⟩, .stop ⟨nsStream, "error"⟩])
+  | "restart" => some (.start ⟨nsStream, "stream"⟩ [], [])
+  | "stream-other" => some (.start ⟨nsStream, "features"⟩ [], [.stop ⟨nsStream, "features"⟩])
+  | "plain" => some (.start ⟨"urn:e", "e"⟩ [], [.stop ⟨"urn:e", "e"⟩])
+  | "close" => some (.stop ⟨nsStream, "stream"⟩, [])
+  | _ => none
+
+def Rd.name : Rd → String
+  | .tok _ => "tok"
+  | .err e => e.name
+  | .eof => "eof"
+
+/-- the model's verdict for a kind of the fact table at a depth -/
+def factVerdict (kind : String) (depth : Nat) : Option String :=
+  (factTok kind).map fun p => (verdict depth p.1 p.2).2.name
 
 /-! ### what the peer sees: top-level elements written -/
 
